@@ -2,6 +2,7 @@ import GarbleVerif.Proofs.BitCore
 import GarbleVerif.Proofs.BitShape
 import GarbleVerif.Proofs.BitAgg
 import GarbleVerif.Proofs.MatchComplete
+import GarbleVerif.Proofs.BeqEncode
 /-!
 # Scalar patterns: the compiled match bit against `Src.matchPat`
 -/
@@ -97,41 +98,6 @@ theorem patBits_bind_none {p : Pat} {ts : STy} {bs : List Bool} {m : Bool} {bind
        · simp only [Option.some.injEq, Prod.mk.injEq] at h; exact h.2.symm
        · simp at h)
     | simp at h
-
-/-- two variant names with the same tag number are the same name -/
-theorem find?_same_index : ∀ (vs : Variants) (a b : String) (i : Nat) (u u' : Bool) (f f' : TyList),
-    vs.find? a = some (i, u, f) → vs.find? b = some (i, u', f') → a = b
-  | .nil, _, _, _, _, _, _, _, h, _ => by simp [Variants.find?] at h
-  | .cons n u0 fs r, a, b, i, u, u', f, f', ha, hb => by
-    simp only [Variants.find?] at ha hb
-    split at ha
-    · rename_i hna
-      simp only [Option.some.injEq, Prod.mk.injEq] at ha
-      obtain ⟨rfl, _, _⟩ := ha
-      split at hb
-      · rename_i hnb
-        have e1 : n = a := by simpa using hna
-        have e2 : n = b := by simpa using hnb
-        rw [← e1, ← e2]
-      · split at hb
-        · simp only [Option.some.injEq, Prod.mk.injEq] at hb
-          omega
-        · simp at hb
-    · split at ha
-      · rename_i j u1 f1 hra
-        simp only [Option.some.injEq, Prod.mk.injEq] at ha
-        obtain ⟨rfl, _, _⟩ := ha
-        split at hb
-        · simp only [Option.some.injEq, Prod.mk.injEq] at hb
-          omega
-        · split at hb
-          · rename_i j2 u2 f2 hrb
-            simp only [Option.some.injEq, Prod.mk.injEq] at hb
-            have : j2 = j := by omega
-            subst this
-            exact find?_same_index r a b j2 u1 u2 f1 f2 hra hrb
-          · simp at hb
-      · simp at ha
 
 theorem natToBits_inj (i j sz : Nat) (hi : i < 2 ^ sz) (hj : j < 2 ^ sz) (h : natToBits i sz = natToBits j sz) : i = j := by
   have := congrArg bitsToNat h
